@@ -46,6 +46,7 @@ type SpecModule struct {
 	Name   string
 	Uses   []string
 	Text   string // P encoding of definitions and axioms (lemmas excluded)
+	Iface  string // declarations, macros and proved lemmas only: the module as seen by a function that hides it
 	Lemmas []*Lemma
 	// text segments in order so that a lemma can use everything before it
 	Segs []specSeg
@@ -54,6 +55,7 @@ type SpecModule struct {
 type specSeg struct {
 	Text  string
 	Lemma *Lemma
+	Axiom bool // a definitional axiom (dropped when the module is hidden for a function)
 }
 
 type SpecSet struct {
@@ -125,12 +127,15 @@ func (ss *SpecSet) parseModule(name, src string) (*SpecModule, error) {
 	}
 	m := &SpecModule{Name: name}
 	var cur strings.Builder
+	curAxiom := false
 	flush := func() {
 		if cur.Len() > 0 {
-			m.Segs = append(m.Segs, specSeg{Text: cur.String()})
+			m.Segs = append(m.Segs, specSeg{Text: cur.String(), Axiom: curAxiom})
 			cur.Reset()
 		}
+		curAxiom = false
 	}
+	_ = curAxiom
 	sig := func(params *SX) []string {
 		var as []string
 		for _, p := range params.List {
@@ -140,6 +145,9 @@ func (ss *SpecSet) parseModule(name, src string) (*SpecModule, error) {
 	}
 	emitRec := func(fname string, params *SX, ret *SX, body *SX) {
 		// defining axiom
+		flush()
+		curAxiom = true
+		defer flush()
 		if len(params.List) == 0 {
 			fmt.Fprintf(&cur, "(assert (= %s %s))\n", fname, body)
 			return
@@ -180,6 +188,41 @@ func (ss *SpecSet) parseModule(name, src string) (*SpecModule, error) {
 			ss.Funs[fn] = SpecFun{Name: fn, Args: sig(f.List[2]), Ret: f.List[3].String(), Rec: true, Mod: name}
 			fmt.Fprintf(&cur, "(declare-fun %s (%s) %s)\n", fn, strings.Join(sig(f.List[2]), " "), f.List[3])
 			emitRec(fn, f.List[2], f.List[3], f.List[4])
+		case "define-fun-rec-fuel":
+			// fuelled recursive definition (Dafny style): f$ (FS k) unfolds to a body over f$ k; the fuel does
+			// not influence the value; f is f$ with fuel 2, so one occurrence unfolds at most twice and
+			// E-matching cannot loop through the definition
+			fn := f.List[1].Atom
+			params, ret, body := f.List[2], f.List[3], f.List[4]
+			ss.Funs[fn] = SpecFun{Name: fn, Args: sig(params), Ret: ret.String(), Rec: true, Mod: name}
+			var names []string
+			for _, p := range params.List {
+				names = append(names, p.List[0].String())
+			}
+			ps := strings.TrimSuffix(strings.TrimPrefix(params.String(), "("), ")")
+			app := func(fuel string) string { return "(" + fn + "$ " + fuel + " " + strings.Join(names, " ") + ")" }
+			fmt.Fprintf(&cur, "(declare-fun %s$ (Fuel %s) %s)\n", fn, strings.Join(sig(params), " "), ret)
+			fmt.Fprintf(&cur, "(define-fun %s (%s) %s (%s$ (FS (FS FZ)) %s))\n", fn, ps, ret, fn, strings.Join(names, " "))
+			flush()
+			curAxiom = true
+			fmt.Fprintf(&cur, "(assert (forall ((fuel Fuel) %s) (! (= %s %s) :pattern (%s))))\n", ps, app("(FS fuel)"), app("fuel"), app("(FS fuel)"))
+			// body with recursive occurrences at lower fuel
+			var lower func(x *SX) *SX
+			lower = func(x *SX) *SX {
+				if !x.IsL {
+					return x
+				}
+				n := &SX{IsL: true}
+				for _, c := range x.List {
+					n.List = append(n.List, lower(c))
+				}
+				if x.head() == fn {
+					n.List = append([]*SX{atom(fn + "$"), atom("fuel")}, n.List[1:]...)
+				}
+				return n
+			}
+			fmt.Fprintf(&cur, "(assert (forall ((fuel Fuel) %s) (! (= %s %s) :pattern (%s))))\n", ps, app("(FS fuel)"), lower(body), app("(FS fuel)"))
+			flush()
 		case "define-funs-rec":
 			decls, bodies := f.List[1].List, f.List[2].List
 			for _, d := range decls {
@@ -190,6 +233,15 @@ func (ss *SpecSet) parseModule(name, src string) (*SpecModule, error) {
 			for i, d := range decls {
 				emitRec(d.List[0].Atom, d.List[1], d.List[2], bodies[i])
 			}
+		case "declare-seq":
+			// (declare-seq Seq_X X): the sequence vocabulary for a sort declared in a spec module
+			sn, en := f.List[1].Atom, f.List[2].String()
+			ss.U.seqs[sn] = en
+			if ss.U.specSeqs == nil {
+				ss.U.specSeqs = map[string]bool{}
+			}
+			ss.U.specSeqs[sn] = true
+			fmt.Fprintf(&cur, "(declare-sort %s 0)\n%s", sn, seqAxioms(sn, en))
 		case "lemma":
 			flush()
 			l := &Lemma{Name: f.List[1].Atom, Mod: name}
@@ -219,6 +271,11 @@ func (ss *SpecSet) parseModule(name, src string) (*SpecModule, error) {
 			l.Body = f.List[len(f.List)-1]
 			m.Lemmas = append(m.Lemmas, l)
 			m.Segs = append(m.Segs, specSeg{Lemma: l})
+		case "assert":
+			flush()
+			curAxiom = true
+			cur.WriteString(f.String() + "\n")
+			flush()
 		default:
 			cur.WriteString(f.String() + "\n")
 		}
@@ -233,6 +290,16 @@ func (ss *SpecSet) parseModule(name, src string) (*SpecModule, error) {
 		}
 	}
 	m.Text = all.String()
+	var iface strings.Builder
+	for _, s := range m.Segs {
+		switch {
+		case s.Lemma != nil:
+			fmt.Fprintf(&iface, "; lemma %s (proved separately)\n(assert %s)\n", s.Lemma.Name, s.Lemma.Body)
+		case !s.Axiom:
+			iface.WriteString(s.Text)
+		}
+	}
+	m.Iface = iface.String()
 	return m, nil
 }
 
